@@ -496,3 +496,31 @@ func VP_C11_WebUpdateRacesPasswordChange() {
 	vpAssert("sched: exactly-one-password-works-afterwards", (okOld && !okNew && !okWeb) || (!okOld && okNew && !okWeb) || (!okOld && !okNew && okWeb))
 	vpCover("end")
 }
+
+// VP_C10_TimersFiringAnywhere: two concurrent logins while every armed timer may expire at an
+// arbitrary point (a slow machine: whatever deadline the code sets itself can pass while a
+// request is queued): both callers get an answer and the agent serves the next request.
+func VP_C10_TimersFiringAnywhere() {
+	if !vpSymbolic() {
+		return // timer expiry is driven by the engine
+	}
+	_, st, _, _ := vpAgent(1, "")
+	vpSchedExplore(true)
+	done := make(chan bool, 2)
+	for i := 0; i < 2; i++ {
+		pw := []string{"old", "bad"}[i]
+		go func() { st.Authenticate("u", pw); done <- true }()
+	}
+	for k := 0; k < 2; k++ {
+		vpYield()
+		vpFireTimers()
+	}
+	a := vpAwait(done)
+	b := vpAwait(done)
+	vpSchedExplore(false)
+	vpAssert("model: both-callers-get-an-answer", a && b)
+	ok := make(chan bool, 1)
+	go func() { st.Check(); ok <- true }()
+	vpAssert("model: agent-still-serves-afterwards", vpAwait(ok))
+	vpCover("end")
+}
